@@ -60,10 +60,13 @@ def job(cfg):
         pre = list(sc.pre)
         tmo = cfg.get('timeout_ms', 10000)
         def query(pc, extra):
-            s = z3.Solver(); s.set('timeout', tmo)
-            for f in pre + pc + extra: s.add(f)
-            t1 = time.time(); r = s.check(); dt = time.time() - t1
-            return str(r), (s.model() if r == z3.sat else None), dt
+            t1 = time.time()
+            for budget in (tmo, 6*tmo):            # an 'unknown' under load is retried once with a larger budget
+                s = z3.Solver(); s.set('timeout', budget)
+                for f in pre + pc + extra: s.add(f)
+                r = s.check()
+                if r != z3.unknown: break
+            return str(r), (s.model() if r == z3.sat else None), time.time() - t1
         for p in ex.paths:
             res['paths'] += 1
             res['kinds'][p['kind']] = res['kinds'].get(p['kind'], 0) + 1
@@ -209,11 +212,8 @@ class MaskScenario(WrapScenario):
         self.mask = mask
     def parse_args(self, ex, st, vals):
         fmt = ex.cstring(vals[2])
-        kwl = vals[3]; names = []; i = 0
-        while True:
-            p = st.mem.get((kwl.region, kwl.off + 8*i))
-            if p is None or p.region is None: break
-            names.append(ex.cstring(p)); i += 1
+        kwl = vals[3]
+        names = self.read_kwlist(ex, st, kwl)
         opt = False; k = 0; given = set()
         for ch, nm in zip([c for c in fmt.split(':')[0] if c != '|' or True], []): pass
         idx = 0
@@ -310,10 +310,11 @@ def replay_main(path):
 
 # ------------------------------------------------------------------------------------------ driver
 
-def main(tier, pid='C17'):
+def main(tier, pid='C17', ev=None):
     from vp import common
     from vp.llsym import ir
-    ev = common.Evidence(pid, 'model_checking', tier)
+    shared = ev is not None
+    if ev is None: ev = common.Evidence(pid, 'model_checking', tier)
     work = tempfile.mkdtemp(prefix='vp.ir.', dir='/var/tmp')
     try:
         cfile = os.path.join(common.REPO, 'src', 'C', 'blas.c')
@@ -363,16 +364,18 @@ def main(tier, pid='C17'):
                 violations.append((k, rp, '%s (call: %s; not observable as a memory error: %s)' % (f['text'], (f['call'] or {}).get('call'), why)))
             else:
                 herr.append('%s: counterexample %s - %s' % (k, (f['call'] or {}).get('call'), why))
-        ev.extra['finding_keys'] = sorted(groups)
-        ev.extra['wrapper_matrix_pairs'] = sorted(allpairs)
+        ev.extra['finding_keys_blas'] = sorted(groups)
+        ev.extra['wrapper_matrix_pairs_blas'] = sorted(allpairs)
         ev.extra['known_keys_hit'] = len(known_hits)
-        ev.cov.update({'states': max(1, paths), 'transitions': max(1, ev.obl['total']), 'traces_validated_against_impl': 0,
-                       'functions_encoded': ['blas.c: ' + ', '.join(sorted(names))], 'blas_call_events_checked': events, 'branch_queries': bq,
+        covd = ({'states': max(1, paths) + ev.cov.get('states', 0), 'transitions': max(1, ev.obl['total']), 'traces_validated_against_impl': 0,
+                       'functions_encoded': ev.cov.get('functions_encoded', []) + ['blas.c: ' + ', '.join(sorted(names))], 'blas_call_events_checked': events, 'branch_queries': bq,
                        'source_hash': ir.src_hash(cfile),
-                       'bounds': 'all %d wrappers of blas.c; every int keyword over the full 32-bit range (given or omitted), matrix shapes 0 <= nrows, ncols, nrows*ncols < 2^31, typecode in {i,d,z}, flags any character, optional scalar objects given/omitted; loops unrolled <= 3 (none occur)' % len(names)})
+                       'bounds': (ev.cov.get('bounds', '') + ' | ' if ev.cov.get('bounds') else '') + 'all %d wrappers of blas.c; every int keyword over the full 32-bit range (given or omitted), matrix shapes 0 <= nrows, ncols, nrows*ncols < 2^31, typecode in {i,d,z}, flags any character, optional scalar objects given/omitted; loops unrolled <= 3 (none occur)' % len(names)})
+        ev.cov.update(covd)
         ev.assumptions += ['C int arithmetic: z3 Int with explicit wrap-around variables; paths "without overflow" exclude every wrap event',
                            'CPython API / cvxopt_API calls are contract stubs (argument parsing = arbitrary well-typed values; Matrix_Check true for matrix arguments; number conversion may fail); sparse arguments and allocation failure are outside',
                            'the external BLAS is trusted to stay inside the reference footprint; numerics are not claimed']
+        if shared: return violations, sorted(dict(known_hits).items()), herr, inconc
         return common.finish(ev, violations, sorted(dict(known_hits).items()), herr, inconc)
     finally:
         shutil.rmtree(work, True)
